@@ -67,6 +67,11 @@ func drawBrokerCfg(rng *rand.Rand, idx int64) brokerCfg {
 	c := brokerCfg{Backend: backends[int(idx)%len(backends)]}
 	c.Parallel = rng.IntN(2) == 0
 	c.Workers = []int{0, 1, 1, 2, 4}[rng.IntN(5)]
+	if (c.Backend == "channel" || c.Backend == "queue-unlimited" || c.Backend == "queue-bounded") && rng.IntN(4) == 0 {
+		// large dispatch pools: many workers parked on one condition variable
+		// (Deque back-ends are excluded: their waiters spin, DESIGN 3.3)
+		c.Workers = []int{8, 32, 96}[rng.IntN(3)]
+	}
 	c.Buffer = []int{0, 0, 0, 1, 8}[rng.IntN(5)]
 	c.Cap = 1 + rng.IntN(6)
 	c.Delay = []string{"none", "none", "yield", "spin"}[rng.IntN(4)]
